@@ -32,6 +32,9 @@ type corridor struct {
 func genCorridor(r *Rng, class string) corridor {
 	n := 1 + r.Intn(6)
 	c := corridor{Class: class}
+	if class == "stairs" {
+		return genStairCorridor(r)
+	}
 	y := float64(8 * r.Intn(4))
 	lo, hi := float64(8*r.Intn(10)), 0.0
 	hi = lo + float64(8*(2+r.Intn(12)))
@@ -77,6 +80,57 @@ func genCorridor(r *Rng, class string) corridor {
 		c.Start = [2]float64{pick(f.TLX, f.BRX, false), pick(f.TLY, f.BRY, false)}
 		c.End = [2]float64{pick(l.TLX, l.BRX, false), pick(l.TLY, l.BRY, false)}
 	}
+	return c
+}
+
+// long corridors (7-18 rectangles) whose walls move steadily to one side, so that many wall corners bulge into the
+// corridor and the funnel holds long chains: staircases with shrinking or growing steps, with the occasional step
+// back; start strictly inside the top edge of the first, end strictly inside the bottom edge of the last rectangle
+func genStairCorridor(r *Rng) corridor {
+	n := 7 + r.Intn(12)
+	c := corridor{Class: "stairs"}
+	y := 0.0
+	lo := float64(8 * (20 + r.Intn(20)))
+	w := float64(8 * (4 + r.Intn(10)))
+	dir := 1.0
+	if r.Bool(50) {
+		dir = -1
+	}
+	step := float64(8 * (2 + r.Intn(6)))
+	for i := 0; i < n; i++ {
+		h := float64(8 * (1 + r.Intn(3)))
+		c.Rects = append(c.Rects, autog.VerifRect{TLX: lo, TLY: y, BRX: lo + w, BRY: y + h})
+		y += h
+		d := step
+		switch r.Intn(4) {
+		case 0:
+			step = max(8, step-8) // shrinking steps: a convex wall
+		case 1:
+			step += 8
+		}
+		if r.Bool(12) {
+			d = -8
+		}
+		nlo := lo + dir*d
+		nw := w + float64(8*(r.Intn(5)-2))
+		if nw < 16 {
+			nw = 16
+		}
+		// keep an overlap of positive length with [lo, lo+w]
+		if nlo >= lo+w-8 {
+			nlo = lo + w - 8
+		}
+		if nlo+nw <= lo+8 {
+			nlo = lo + 8 - nw
+		}
+		if nlo < 0 {
+			nlo = 0
+		}
+		lo, w = nlo, nw
+	}
+	f, l := c.Rects[0], c.Rects[n-1]
+	c.Start = [2]float64{f.TLX + 4*float64(1+r.Intn(int((f.BRX-f.TLX)/4)-1)), f.TLY}
+	c.End = [2]float64{l.TLX + 4*float64(1+r.Intn(int((l.BRX-l.TLX)/4)-1)), l.BRY}
 	return c
 }
 
@@ -198,7 +252,10 @@ func runGeom(fs *flag.FlagSet, prop string, seed uint64, n int, outDir, file str
 			return
 		}
 		src := "From Autog Require Import GeomCheck.\nDefinition q (n : Z) (d : positive) : Q := Qmake n d.\nDefinition gcases : list (nat * geom_case) := [\n" +
-			shard.String() + "].\nDefinition G := Eval vm_compute in geom_failing gcases.\nPrint G.\nDefinition H := Eval vm_compute in geom_cert_failing gcases.\nPrint H.\n"
+			shard.String() + "].\nDefinition G := Eval vm_compute in geom_failing gcases.\nPrint G.\n"
+		if prop != "stairs" { // the kernel-evaluated containment certificate is too slow on corridors of 7-18 rectangles
+			src += "Definition H := Eval vm_compute in geom_cert_failing gcases.\nPrint H.\n"
+		}
 		os.WriteFile(fmt.Sprintf("%s/geom_%03d.v", outDir, nshard), []byte(src), 0o644)
 		nshard++
 		inShard = 0
@@ -209,6 +266,9 @@ func runGeom(fs *flag.FlagSet, prop string, seed uint64, n int, outDir, file str
 		class := "inside"
 		if prop == "any" || (prop == "mixed" && r.Bool(30)) {
 			class = "any"
+		}
+		if prop == "stairs" {
+			class = "stairs"
 		}
 		c := genCorridor(r, class)
 		if hangs < 6 {
@@ -238,7 +298,7 @@ func runGeom(fs *flag.FlagSet, prop string, seed uint64, n int, outDir, file str
 		fmt.Fprintf(&shard, " (%d%%nat, ((%s,%s), (%s,%s), [%s], %d%%nat, %s))", i, qlit(c.Start[0]), qlit(c.Start[1]), qlit(c.End[0]), qlit(c.End[1]),
 			strings.Join(rs, ";"), c.Outcome, ptsLit(c.Path))
 		inShard++
-		if inShard >= 100 {
+		if inShard >= 100 || (prop == "stairs" && inShard >= 12) {
 			flush()
 		}
 	}
